@@ -1,0 +1,105 @@
+//! Verification seams, compiled only with `--cfg aquatic_verif`.
+//!
+//! Nothing in here changes behaviour unless a harness installs an override
+//! or a handler.
+
+use std::cell::{Cell, RefCell};
+use std::sync::atomic::{AtomicU64, AtomicUsize, Ordering};
+use std::sync::RwLock;
+
+// ---- clock -----------------------------------------------------------------
+
+const NO_CLOCK: u64 = u64::MAX;
+
+static GLOBAL_CLOCK: AtomicU64 = AtomicU64::new(NO_CLOCK);
+
+thread_local! {
+    static THREAD_CLOCK: Cell<Option<u32>> = const { Cell::new(None) };
+}
+
+/// Override `ServerStartInstant::seconds_elapsed` on the current thread
+pub fn set_thread_clock(seconds: Option<u32>) {
+    THREAD_CLOCK.with(|c| c.set(seconds));
+}
+
+/// Override `ServerStartInstant::seconds_elapsed` on all threads
+pub fn set_global_clock(seconds: Option<u32>) {
+    GLOBAL_CLOCK.store(seconds.map(u64::from).unwrap_or(NO_CLOCK), Ordering::SeqCst);
+}
+
+pub fn clock_override() -> Option<u32> {
+    if let Some(s) = THREAD_CLOCK.with(|c| c.get()) {
+        return Some(s);
+    }
+
+    match GLOBAL_CLOCK.load(Ordering::SeqCst) {
+        NO_CLOCK => None,
+        s => Some(s as u32),
+    }
+}
+
+// ---- probes / fault points -------------------------------------------------
+
+type ProbeHandler = Box<dyn Fn(&str) -> bool + Send + Sync>;
+
+static PROBE_HANDLER: RwLock<Option<ProbeHandler>> = RwLock::new(None);
+
+/// Install a process-wide probe handler. The handler may panic, or return
+/// true to ask the calling worker to return.
+pub fn set_probe_handler(handler: Option<ProbeHandler>) {
+    *PROBE_HANDLER.write().unwrap_or_else(|e| e.into_inner()) = handler;
+}
+
+/// Named fault point. Returns true if the caller should return.
+pub fn probe(name: &str) -> bool {
+    let guard = PROBE_HANDLER.read().unwrap_or_else(|e| e.into_inner());
+
+    match guard.as_ref() {
+        Some(handler) => handler(name),
+        None => false,
+    }
+}
+
+// ---- lock events -----------------------------------------------------------
+
+#[derive(Clone, Copy, Debug, PartialEq, Eq, Hash)]
+pub enum LockOp {
+    Read,
+    Upgradable,
+    Write,
+    Upgrade,
+    ReleaseRead,
+    ReleaseUpgradable,
+    ReleaseWrite,
+}
+
+type LockHandler = Box<dyn Fn(usize, &'static str, LockOp)>;
+
+thread_local! {
+    static LOCK_HANDLER: RefCell<Option<LockHandler>> = const { RefCell::new(None) };
+}
+
+pub fn set_thread_lock_handler(handler: Option<LockHandler>) {
+    LOCK_HANDLER.with(|h| *h.borrow_mut() = handler);
+}
+
+/// Report a lock operation. No handler on this thread: no-op.
+pub fn lock_event(addr: usize, ty: &'static str, op: LockOp) {
+    LOCK_HANDLER.with(|h| {
+        if let Some(handler) = h.borrow().as_ref() {
+            handler(addr, ty, op);
+        }
+    });
+}
+
+// ---- access list reload counter --------------------------------------------
+
+static RELOADS: AtomicUsize = AtomicUsize::new(0);
+
+pub fn note_reload() {
+    RELOADS.fetch_add(1, Ordering::SeqCst);
+}
+
+pub fn reload_count() -> usize {
+    RELOADS.load(Ordering::SeqCst)
+}
